@@ -86,6 +86,31 @@ func genClaimTx(r *Rand, cfg map[string]int64, etrog bool, gi *big.Int, withVali
 		for i := 0; i < n+1; i++ {
 			switch k := r.Intn(10); {
 			case k < 3: // decoy: other global index, maybe reverted
+				if r.Bool(35) {
+					// look-alike decoys: a call whose global index shares its low bits with the event's - the other
+					// contract generation carrying only the 32-bit leaf index, or the same leaf index under the other
+					// mainnet flag / another rollup index
+					leaf := uint32(new(big.Int).And(gi, big.NewInt(0xFFFFFFFF)).Uint64())
+					var spec *ClaimCallSpec
+					switch {
+					case etrog && r.Bool(50):
+						spec = genClaimCall(r, false, big.NewInt(int64(leaf)))
+					case etrog:
+						g := bridgesync.GenerateGlobalIndex(gi.Bit(64) == 0, uint32(1+r.Intn(3)), leaf)
+						if g.Cmp(gi) != 0 {
+							spec = genClaimCall(r, true, g)
+						}
+					default:
+						g := bridgesync.GenerateGlobalIndex(r.Bool(50), uint32(1+r.Intn(3)), leaf)
+						if g.Cmp(gi) != 0 {
+							spec = genClaimCall(r, true, g)
+						}
+					}
+					if spec != nil && spec.GlobalIdx.Cmp(gi) != 0 {
+						c.Calls = append(c.Calls, bridgeCall(spec, r.Bool(pRev)))
+						break
+					}
+				}
 				c.Calls = append(c.Calls, bridgeCall(genClaimCall(r, etrog, otherGI()), r.Bool(pRev)))
 			case k < 5: // same global index but reverted itself: must be ignored
 				c.Calls = append(c.Calls, bridgeCall(genClaimCall(r, etrog, gi), true))
